@@ -98,6 +98,40 @@ def strandGraph (names : List String) (labels : List Attrs) (circ : Option Attrs
              ++ (List.range (n - 2)).map (fun i => ⟨i + 1, i + 2, labels.getD (i + 1) []⟩),
     maxResid := n }
 
+/-- The same strand when the residue graph numbers its nodes from `k0` (a `.json` sequence file may use
+any integer node ids; `parse_json` keeps the ids as node keys and the `resid`s of the file, here `1..n`,
+and `MetaMolecule.__init__` sets `max_resid` to the largest resid): keys `k0..k0+n-1`, resids `1..n`. -/
+def strandGraphFrom (k0 : Nat) (names : List String) (labels : List Attrs) (circ : Option Attrs) : RGraph :=
+  let n := names.length
+  { nodes := names.zipIdx.map (fun (nm, i) => ⟨k0 + i, i + 1, nm⟩),
+    edges := (if 2 ≤ n then [⟨k0, k0 + 1, labels.getD 0 []⟩] else [])
+             ++ (match circ with | some a => [⟨k0, k0 + (n - 1), a⟩] | none => [])
+             ++ (List.range (n - 2)).map (fun i => ⟨k0 + (i + 1), k0 + (i + 2), labels.getD (i + 1) []⟩),
+    maxResid := n }
+
+/-- How `gen_params` gets the strand (`gen_itp.py`): `-seq` (`split_seq_string` +
+`MetaMolecule.from_monomer_seq_linear`: keys `0..n-1`, linear, no edge attributes) or `-seqf`
+(`MetaMolecule.from_sequence_file`: keys from `k0`, labels, possibly circular). -/
+inductive SeqInput where
+  | seq (names : List String)
+  | seqFile (k0 : Nat) (names : List String) (labels : List Attrs) (circ : Option Attrs)
+deriving Repr
+
+def SeqInput.names : SeqInput → List String
+  | .seq names => names
+  | .seqFile _ names _ _ => names
+
+/-- the `MetaMolecule` built by the `if seq: … elif seq_file: …` of `gen_params` -/
+def SeqInput.graph : SeqInput → RGraph
+  | .seq names => strandGraphFrom 0 names [] none
+  | .seqFile k0 names labels circ => strandGraphFrom k0 names labels circ
+
+/-- `gen_params(..., seq=… | seq_file=…, dsdna=…)` up to the point where the residue graph is handed to
+`MapToMolecule`: build the strand from EITHER source, then `if dsdna: complement_dsDNA(meta_molecule)`. -/
+def genParamsDsdna (tbl : List (String × String)) (inp : SeqInput) (dsdna : Bool) : Except String RGraph :=
+  let meta := inp.graph
+  if dsdna then complement tbl meta else .ok meta
+
 end PolyplyVerif.Dna
 
 namespace PolyplyVerif.Dna
@@ -129,6 +163,23 @@ def specGraph (tbl : List (String × String)) (names : List String) (labels : Li
            edges := base.edges
                     ++ (List.range (n - 1)).map (fun k => ⟨n + k, n + k + 1, normAttrs (labels.getD (n - 2 - k) [])⟩)
                     ++ (match circ with | some a => [⟨2 * n - 1, n, normAttrs a⟩] | none => []),
+           maxResid := 2 * n }
+
+/-- The specification for a strand whose node keys start at `k0`: the strand unchanged, then residue
+`n+k` (key `k0+n+k`, resid `n+k+1`) named `comp names[n-1-k]`, edges `(k0+n+k, k0+n+k+1)` carrying the
+attributes of the mirrored edge, a closing edge `(k0+2n-1, k0+n)` iff the input is circular. -/
+def specGraphFrom (k0 : Nat) (tbl : List (String × String)) (names : List String) (labels : List Attrs)
+    (circ : Option Attrs) : Option RGraph :=
+  let n := names.length
+  match names.reverse.mapM (lookup tbl) with
+  | none => none
+  | some comps =>
+    let base := strandGraphFrom k0 names labels circ
+    some { nodes := base.nodes ++ comps.zipIdx.map (fun (nm, k) => ⟨k0 + (n + k), n + k + 1, nm⟩),
+           edges := base.edges
+                    ++ (List.range (n - 1)).map
+                        (fun k => ⟨k0 + (n + k), k0 + (n + k + 1), normAttrs (labels.getD (n - 2 - k) [])⟩)
+                    ++ (match circ with | some a => [⟨k0 + (2 * n - 1), k0 + n, normAttrs a⟩] | none => []),
            maxResid := 2 * n }
 
 end PolyplyVerif.Dna
